@@ -59,14 +59,34 @@ func TestVerifExec(t *testing.T) {
 		}
 		f := strings.Fields(line)
 		res := "bad-op"
+		// an operation that does not come back (an endless loop in the code under test cannot be interrupted from inside
+		// the process): its answer is "hung", what was answered so far is kept, the process ends
+		wd := time.AfterFunc(verifOpTimeout(), func() {
+			wmu.Lock()
+			w.WriteString("hung\n")
+			w.Flush()
+			os.Exit(3)
+		})
 		if e, ok := verifExecs[f[0]]; ok {
 			res = runVerifOp(t, e, f[1:])
 		}
+		wd.Stop()
+		wmu.Lock()
 		w.WriteString(res)
 		w.WriteByte('\n')
+		wmu.Unlock()
 		n++
 	}
 	fmt.Printf("verif-exec ops=%d\n", n)
+}
+
+var wmu sync.Mutex
+
+func verifOpTimeout() time.Duration {
+	if v, err := strconv.Atoi(os.Getenv("VERIF_OP_TIMEOUT")); err == nil && v > 0 {
+		return time.Duration(v) * time.Second
+	}
+	return 90 * time.Second
 }
 
 // each operation runs as a subtest so that the tester's t.Cleanup (closing conn, synctest group) runs per op
